@@ -227,6 +227,16 @@ func runHandshakeCase(c hsCase, tmp string) (hsCase, hsOut) {
 	c.Raw = raw
 	sr := NewScriptedRunner(func(r *ScriptedRunner) {
 		r.StdoutW().Write([]byte(raw))
+		if c.Variant%2 == 1 {
+			// the plugin keeps writing to its stdout after the first line, whatever the host made of it
+			go func() {
+				for i := 0; i < 3; i++ {
+					if _, err := r.StdoutW().Write([]byte("more plugin output on stdout\n")); err != nil {
+						return
+					}
+				}
+			}()
+		}
 		<-r.Gone()
 	})
 	cl := plugin.NewClient(hsClientConfig(c, sr, tmp))
@@ -290,10 +300,21 @@ func runHandshakeCase(c hsCase, tmp string) (hsCase, hsOut) {
 	}
 	// the scripted plugin goes away first, so that Kill does not sit out its grace period
 	sr.Exit()
-	func() {
+	killDone := make(chan struct{})
+	go func() {
+		defer close(killDone)
 		defer func() { recover() }()
 		cl.Kill()
 	}()
+	select {
+	case <-killDone:
+	case <-time.After(10 * time.Second):
+		// Kill after the start (failed or not) never returned
+		out.Hung = true
+		out.Ok = false
+		out.Ms = out.LimitMs + 10000
+		out.Err = "Kill after Start did not return within 10 s"
+	}
 	out.Launches = sr.Starts.Load()
 	return c, out
 }
